@@ -54,7 +54,9 @@ def _segment(E, total=65534, stack=512):
 
 # layout items: (kind, length); kinds:
 #   's' scalar assigned and kept, 'g' scalar assigned then overwritten (garbage), 'a' array element,
-#   't' temporary kept alive on the evaluation stack, 'e' empty scalar, 'l' scalar pointing at a program literal
+#   't' temporary kept alive on the evaluation stack, 'e' empty scalar, 'l' scalar pointing at a program literal,
+#   'z' scalar holding a *computed* empty string (length 0 but carrying the address of the allocation pointer,
+#       i.e. the address of the string stored just before it)
 LAYOUTS = [
     [('s', 3)],
     [('g', 4), ('s', 2)],
@@ -68,6 +70,11 @@ LAYOUTS = [
     [('s', 2), ('g', 4), ('t', 3)],
     [('g', 4), ('t', 3)],
     [('t', 2), ('t', 1)],
+    [('s', 3), ('z', 0)],
+    [('s', 2), ('z', 0), ('s', 1), ('z', 0), ('g', 2)],
+    [('a', 2), ('z', 0), ('t', 1)],
+    [('s', 1)],
+    [('s', 1), ('t', 2)],
 ]
 
 
@@ -87,7 +94,13 @@ def _build(E, ds, layout):
     E.call(ds.strings.fix_temporaries)
     for i, (kind, L) in enumerate(layout):
         content = E.bytes('str%d' % i, L, kind='bytes') if L else b''
-        if kind in ('s', 'g', 'e'):
+        if kind == 'z':
+            name = next(names)
+            z = E.new(strings.String, None, vals)
+            E.call(z.from_str, b'')
+            E.call(ds.set_variable, name, [], z)
+            live.append((name.decode() + ' (computed empty)', (ds.view_or_create_variable, name, []), []))
+        elif kind in ('s', 'g', 'e'):
             name = next(names)
             E.call(ds.set_variable, name, [], new_string(E, vals, content) if L else vals.new_string())
             if kind == 'g':
@@ -154,6 +167,32 @@ def t_collect(E, layout_no):
     E.call(ds._collect_garbage)
     E.prove(ds.strings.current == cur, 'a second collection moves nothing')
     _strings_ok(E, ds, live, live_bytes, 'after a second collection', packed=True)
+
+
+def t_release_then_collect(E, layout_no):
+    """A string released without any allocation (variable set to the empty string) right after a
+    collection is garbage for the next collection."""
+    ds = _segment(E)
+    live, live_bytes = _build(E, ds, LAYOUTS[layout_no])
+    E.call(ds._collect_garbage)
+    # release the first live scalar
+    victim = None
+    for k, (desc, getter, want) in enumerate(live):
+        if isinstance(getter, tuple) and getter[2] == [] and want and 'literal' not in desc:
+            victim = k
+            break
+    if victim is None:
+        E.prove(True, 'no releasable scalar in this layout')
+        return
+    desc, getter, want = live[victim]
+    E.call(ds.set_variable, getter[1], [], ds.values.new_string())
+    live2 = [x for k, x in enumerate(live) if k != victim] + [(desc + ' (released)', getter, [])]
+    r = E.call(ds._collect_garbage)
+    E.prove(not r.raised, 'collection never raises')
+    _strings_ok(E, ds, live2, live_bytes - len(want), 'after releasing a string and collecting again', packed=True)
+    free = E.call(ds._get_free).value
+    want_free = (ds.total_memory - ds.stack_size - 2) - (ds.code_start + ds.program.size()) - ds.scalars.current - ds.arrays.current - (live_bytes - len(want))
+    E.prove(free == want_free, 'FRE counts the released bytes as free')
 
 
 def t_check_free(E, layout_no, slack):
@@ -226,6 +265,14 @@ def t_temp_boundary(E, layout_no):
         E.prove(not r.raised, 'is_permanent works after a collection (%s)' % desc)
         if not r.raised:
             E.prove(bool(r.value) == bool(was), '%s is %s before and after' % (desc, 'permanent' if was else 'temporary'))
+    # the next statement starts: temporaries are reset, permanent strings stay readable
+    if not any(not was for _, _, was in vals):
+        E.call(ds.strings.reset_temporaries)
+        for desc, getter, want in live:
+            if 'temporary' in desc:
+                continue
+            got = _read(E, getter)
+            E.prove(len(got) == len(want) and (bool(same_bytes(got, want)) if want else True), '%s is still there at the next statement' % desc)
     # a new temporary after the collection is temporary, and reset_temporaries frees exactly it
     cur = ds.strings.current
     t = new_string(E, ds.values, b'tmp')
@@ -272,11 +319,12 @@ def t_temporaries(E, L):
 
 TASKS = [
     Task('collect_garbage', t_collect, cases=[{'layout_no': i} for i in range(len(LAYOUTS))]),
+    Task('release, then collect again', t_release_then_collect, cases=[{'layout_no': i} for i in (0, 2, 3, 4, 6, 9, 12)]),
     Task('check_free', t_check_free, covers=('refused', 'granted'),
          cases=[{'layout_no': i, 'slack': s} for i in (0, 1, 2, 3, 5) for s in (1, 2, 7, 40)]),
     Task('StringSpace.store', t_store, cases=[{'layout_no': i, 'L': L} for i in (0, 2, 4, 8) for L in (0, 1, 5, 255)]),
     Task('temporaries', t_temporaries, cases=[{'L': L} for L in (1, 4)]),
-    Task('temporaries boundary across a collection', t_temp_boundary, cases=[{'layout_no': i} for i in (1, 3, 7, 9, 10, 11)]),
+    Task('temporaries boundary across a collection', t_temp_boundary, cases=[{'layout_no': i} for i in (1, 3, 7, 9, 10, 11, 12, 15, 16)]),
     Task('hold_garbage / get_stack', t_context_managers,
          cases=[{'which': w, 'fails': f} for w in ('hold_garbage', 'get_stack') for f in (False, True)]),
 ]
